@@ -244,7 +244,8 @@ theorem stack_ok (c : Cfg) {w : World} (h : w.InvX) (i : Nat) (ts : List Tab) (o
             simp only [stackTarget, stackMainBlocks, Tab.blocks, fixedBlocks, fixedBlocksNoExt, auxBlocks, auxEntryBlocks, if_true,
               Bool.false_eq_true, if_false, List.flatMap_nil, List.append_nil, stackDims, List.length_append, List.length_cons, List.length_nil]
             rcases Bool.eq_false_or_eq_true c.stackExtents with he | he <;>
-              simp only [he, Bool.not_true, Bool.not_false, if_true, if_false, Bool.false_eq_true] <;> perm_count
+              rcases Bool.eq_false_or_eq_true c.stackGuard with hgd | hgd <;>
+              simp only [he, hgd, Bool.not_true, Bool.not_false, if_true, if_false, Bool.false_eq_true] <;> perm_count
           -- the two paddings die with empty ledgers
           have hp1 := ledgerOf_run w.cd (padBlocks t0.dims) h1
           have hp2 := ledgerOf_run (runSteps w.cd ((padBlocks t0.dims).map .a) []).2.2.1 (padBlocks t0.dims) h2
